@@ -201,7 +201,7 @@ fn concurrent_phase(env: &Env, st: &mut Stats) {
         Ok(b) => b,
         Err(_) => return,
     };
-    let calls = env.tier.n(400, 10_000) as usize;
+    let calls = env.tier.n(1500, 20_000) as usize;
     let results: std::sync::Mutex<Vec<Violation>> = std::sync::Mutex::new(Vec::new());
     let total = std::sync::atomic::AtomicU64::new(0);
     std::thread::scope(|s| {
@@ -276,7 +276,7 @@ pub fn run(env: &Env) -> i32 {
         }
         st.violations.extend(vs);
     }
-    tape_stream(env, &mut st, "histories", env.tier.n(800, 20_000), 900, |tape, s| history_case(tape, s));
+    tape_stream(env, &mut st, "histories", env.tier.n(3000, 40_000), 900, |tape, s| history_case(tape, s));
     concurrent_phase(env, &mut st);
     let meta = Meta {
         rule: "cases = histories of 3-14 library operations over a pool of files that share state-variable names and differ in solidity version and SafeMath usage: per-file analyses with arbitrary file numbers and repetitions, directory analyses with the file among varying siblings, positions, sub-directories and pattern selections/orders; oracle = every (file, pattern) result inside the history equals the baseline of a single call; plus 16 threads x N concurrent calls compared with the sequential baseline; non-trivial = at least 3 different files and at least one repetition in the history".into(),
